@@ -44,10 +44,16 @@ def evaluate(d, tier, checks_override):
         res["tests"] = f"{m.group(1)} passed" if (r.returncode == 0 and m) else "TESTS FAIL: " + r.stdout[-300:]
         demo = os.path.join(d, "demo.py")
         if os.path.exists(demo):
-            env0 = dict(os.environ, PYTHONPATH="/repo")
-            r0 = run([PY, "-W", "ignore", demo], cwd="/repo", env=env0)
-            env1 = dict(os.environ, PYTHONPATH=dst)
-            r1 = run([PY, "-W", "ignore", demo], cwd=dst, env=env1)
+            # same layout as in the author's worktree: <tree>/seeded_<name>/demo.py, run from <tree>
+            clean = os.path.join(tmp, "clean")
+            shutil.copytree("/repo", clean, ignore=shutil.ignore_patterns(".git", "__pycache__", "*.pyc", ".pytest_cache", "seeded_*"))
+            outs = {}
+            for tag, tree in (("unchanged", clean), ("changed", dst)):
+                sub = os.path.join(tree, "seeded_" + name)
+                os.makedirs(sub, exist_ok=True)
+                shutil.copy(demo, os.path.join(sub, "demo.py"))
+                outs[tag] = run([PY, "-W", "ignore", os.path.join("seeded_" + name, "demo.py")], cwd=tree, env=dict(os.environ, PYTHONPATH=tree))
+            r0, r1 = outs["unchanged"], outs["changed"]
             res["demo_unchanged"] = "passes" if r0.returncode == 0 else f"FAILS ({r0.returncode}): " + (r0.stdout + r0.stderr)[-200:]
             res["demo_changed"] = "fails" if r1.returncode != 0 else "PASSES (no effect?)"
         for pid in checks:
